@@ -147,6 +147,17 @@ static void spectrum_cases(int d, const std::vector<double>& E, const std::vecto
       }
     }
   }
+  // (b'') a ramp wider than the cutoff is rejected whatever the magnitudes (squares of the two may leave the double range)
+  if (Emax > 0 && (std::fabs(E[0] - (std::sqrt(2.0) - 1.7)) < 1e-12 || ((long)(E[0] + 2 * E[1] + 4 * E[d - 1]) % 5 == 0))) {
+    const double CR[][2] = {{1e-170, 1e-165}, {0.0, 1e-170}, {1e160, 1e200}, {-1e-200, 3e-180}, {1e154, -1.0000001e154}, {5e-324, 1e-323}};
+    for (auto& cr : CR) for (int which = 0; which < 2; which++) {
+      count("evaluations"); { uint64_t h = ref::fnv(cr, sizeof cr, hE); distinct(h ^ (60 + which)); }
+      std::vector<double> buf(2 * np, 1.0); bool threw = false;
+      try { if (which) H.AvgRampFilter(buf.data(), 0.7, cr[0], cr[1]); else H.LowPassFilter(buf.data(), cr[0], cr[1]); } catch (const std::exception&) { threw = true; }
+      bool untouched = true; for (double x : buf) if (x != 1.0) untouched = false;
+      if (!threw || !untouched) violation(std::string(which ? "AvgRampFilter" : "LowPassFilter") + ":wide-ramp-not-rejected:extreme-magnitudes" + ds, J().i("d", d).num("cutoff", cr[0]).num("ramp", cr[1]).i("threw", threw).i("untouched", untouched).done());
+    }
+  }
   // (c') "every table entry is finite for finite inputs": spectra and intervals whose products (level x time, width of the interval)
   //      overflow although every argument is finite
   if (Emax > 0 && (std::fabs(E[0] - (std::sqrt(2.0) - 1.7)) < 1e-12 || ((long)(E[0] + 2 * E[1] + 4 * E[d - 1]) % 5 == 0))) {
